@@ -3,7 +3,7 @@ import itertools
 import random as _random
 
 from core.runner import Prop
-from core.rng import ScriptedRandom, patched
+from core.rng import SemanticRandom, installed
 
 
 class C20(Prop):
@@ -55,16 +55,51 @@ class C20(Prop):
         steps, draws = [], []
         ref = set()
         viol = []
+
+        class R(SemanticRandom):
+            """a draw is ONE uniform choice among the current members: served as the scripted index, whether the code asks for an
+            index (choice / randrange) or for a uniform number in [0, 1) that it scales by the current size"""
+
+            def __init__(self):
+                super().__init__()
+                self.i, self.n_events = 0, 0
+
+            def arm(self, i):
+                self.i, self.n_events = i, 0
+                del self.unexpected[:]
+
+            def on_uniform(self, n, ctx):
+                self.n_events += 1
+                return self.i if self.i < n else super().on_uniform(n, ctx)
+
+            def on_float(self, ctx):
+                self.n_events += 1
+                n = len(ds)
+                return (self.i + 0.5) / n if n and self.i < n else super().on_float(ctx)
+
+        def state():
+            # private representation, observed when it is there (compared with the model's state; not part of the property)
+            e, m = getattr(ds, "_edges", None), getattr(ds, "_edge_hashmap", None)
+            return (None if e is None else list(e), None if m is None else dict(m))
+
+        def public():
+            return ([tuple(x) for x in ds], len(ds))
+        unexpected = 0
+        sr = R()
+        with installed(sr):
+            return self._run(case, ds, sr, ref, viol, steps, draws, state, public, unexpected)
+
+    def _run(self, case, ds, sr, ref, viol, steps, draws, state, public, unexpected):
         for op in case["ops"]:
             name = op[0]
             res = None
-            before = (list(ds._edges), dict(ds._edge_hashmap))
+            before = (state(), public())
             if name == "add":
                 e = tuple(op[1])
                 was = e in ref
                 ds.add(e)
                 ref.add(e)
-                if was and (list(ds._edges), dict(ds._edge_hashmap)) != before:
+                if was and (state(), public()) != before:
                     viol.append("add-present-changed-state")
             elif name == "remove":
                 e = tuple(op[1])
@@ -77,16 +112,16 @@ class C20(Prop):
                     res = "KeyError"
                     if e in ref:
                         viol.append("remove-present-raised")
-                    if (list(ds._edges), dict(ds._edge_hashmap)) != before:
+                    if (state(), public()) != before:
                         viol.append("remove-absent-corrupted-state")
             elif name == "draw":
                 n = len(ds)
                 i = op[1] % n if n else 0
                 draws.append(i)
-                sr = ScriptedRandom([i], mode="exact")
+                sr.arm(i)
                 try:
-                    with patched(mod.random, "choice", sr.choice):
-                        x = ds.draw()
+                    x = ds.draw()
+                    unexpected += len(sr.unexpected) + (sr.n_events != 1)
                     res = list(x)
                     if tuple(x) not in ref:
                         viol.append("draw-returned-non-member")
@@ -112,17 +147,21 @@ class C20(Prop):
                 if (tuple(u) in ds) != (tuple(u) in ref):
                     viol.append("membership-differs-from-set")
             # every member can be drawn: index i draws the i-th listed member
-            drawn = set()
+            drawn, scripted = set(), True
             for i in range(len(ds)):
-                sr = ScriptedRandom([i], mode="exact")
-                with patched(mod.random, "choice", sr.choice):
-                    drawn.add(tuple(ds.draw()))
-            if drawn != ref:
+                sr.arm(i)
+                drawn.add(tuple(ds.draw()))
+                scripted = scripted and not sr.unexpected and sr.n_events == 1
+            if not drawn <= ref:
+                viol.append("draw-returned-non-member")
+            if scripted and drawn != ref:          # one uniform choice per draw, every outcome tried: every member must come up
                 viol.append("some-member-cannot-be-drawn")
+            unexpected += not scripted
+            e, m = state()
             steps.append({"res": res, "state": {
-                "edges": [list(x) for x in ds._edges],
-                "map": sorted([list(k), v] for k, v in ds._edge_hashmap.items())}})
-        return {"steps": steps, "draws": draws, "oracle": sorted(set(viol))}
+                "edges": None if e is None else [list(x) for x in e],
+                "map": None if m is None else sorted([list(k), v] for k, v in m.items())}})
+        return {"steps": steps, "draws": draws, "oracle": sorted(set(viol)), "rng_unexpected": int(unexpected)}
 
     def request(self, case, obs):
         if "exc" in obs:
@@ -144,12 +183,12 @@ class C20(Prop):
         for s in reply["steps"]:
             s["state"]["map"] = sorted(s["state"]["map"])
             steps.append(s)
-        return {"steps": steps}
+        return {"steps": steps, "rng_unexpected": 0}
 
     def project(self, case, obs):
         if "exc" in obs:
             return obs
-        return {"steps": obs["steps"]}
+        return {"steps": obs["steps"], "rng_unexpected": obs["rng_unexpected"]}
 
     def oracle(self, case, obs):
         if "exc" in obs:
@@ -166,7 +205,7 @@ class C20(Prop):
                     return True
                 if prev and prev[-1] != op[1]:
                     return True
-            prev = st["state"]["edges"]
+            prev = st["state"]["edges"] or []
         return False
 
     def stats(self, case, obs, hist):
